@@ -99,13 +99,13 @@ def name_str(n):
 
 def cfg_term(maxchain):
     """The model configuration.  Normally Meta.Corr.code_cfg (the repairs /repo has, recorded in Corr.v);
-    JIVA_META_FIXES=f5,f9,f10,f11 overrides it for trying a patch in a scratch worktree."""
+    JIVA_META_FIXES=f5,f9,f10,f11,f12 overrides it for trying a patch in a scratch worktree."""
     fx = os.environ.get("JIVA_META_FIXES")
     n = maxchain or 1024
     if fx is None:
         return "code_cfg %d" % n
     have = set(x.strip() for x in fx.split(",") if x.strip())
-    return "mkcfg %d %s %s %s %s" % (n, bt("f5" in have), bt("f9" in have), bt("f10" in have), bt("f11" in have))
+    return "mkcfg %d %s %s %s %s %s" % (n, bt("f5" in have), bt("f9" in have), bt("f10" in have), bt("f11" in have), bt("f12" in have))
 
 
 class Tables:
@@ -322,7 +322,8 @@ def run_cases(ctx, binpath, cases, tag="meta"):
     """cases: list of dict(ops=[...], maxchain=int).  Returns (bad, cov, outs).
     bad: list of dict(case, step, field, c12, failstep)"""
     hc = [dict(id=i, ops=[op_json(o) for o in c["ops"]], maxchain=c.get("maxchain", 0)) for i, c in enumerate(cases)]
-    outs = vlib.run_harness(ctx, binpath, hc, tag=tag, workers=8)
+    # Server.Close and RemoveDiffDisk poll with a 1 s sleep (holeDrainer): the run is sleep-bound, not CPU-bound
+    outs = vlib.run_harness(ctx, binpath, hc, tag=tag, workers=min(40, max(1, len(hc) // 3)))
     terms = []
     for i, c in enumerate(cases):
         o = outs[i]
@@ -434,6 +435,11 @@ class Gen:
                 self.offchain.remove(d[1])
             return [dict(op="rm", d=d)]
         if x < 0.62:
+            if len(self.chain) < 3 and self.mode == "RW" and rng.random() < 0.6:
+                s = self.fresh_snap()                                 # grow the chain so that a mark-removed can succeed later
+                self.chain.insert(0, s)
+                self.head += 1
+                return [dict(op="snap", s=s, user=False, cr=self.cr())]
             pool = self.chain[1:-1] if self.mode == "RW" else []
             d = self.some_name(pool)
             if d[0] == "s" and rng.random() < 0.3:
@@ -510,7 +516,8 @@ def fixed_cases():
 
 
 def known_cases():
-    """the argument shapes of the known findings (see known_findings.txt), one history each"""
+    """argument shapes that are (or were) findings, one history each: a duplicate snapshot name (repaired in /repo
+    3b20437: now a clean refusal) and a revert to the head's own name (known_findings.txt: revert-target)"""
     P = [dict(op="create"), dict(op="open"), dict(op="mode", mode="RW")]
     S = lambda s, u=False: dict(op="snap", s=s, user=u, cr=s)
     return [
